@@ -84,6 +84,14 @@ def raw_encoding(prog, rep=None):
                     t = contains_term(r, lambda v: v[0] == 'pure' and order_of(v[1]) and v[1].split('::')[-1].startswith('from_'))
                     ab = contains_term(r, lambda v: v[0] == 'pure' and v[1].endswith('::all_bytes'))
                     good = bool(t and ab and contains_term(t, lambda v: v is ab) is not None)
+                    if good:
+                        # exactly uN::from_xx_bytes(<all bytes>) of the role's own width, returned as it is (or inside Some): nothing selects,
+                        # masks or re-packs part of the bytes on the way
+                        a = t[2][0] if len(t[2]) == 1 else None
+                        while a is not None and a is not ab and a[0] in ('init', 'P', 'cref', 'ref', 'deref', 'copy') and len(a) >= 2 and isinstance(a[1], tuple):
+                            a = a[1]
+                        top = r[3][0] if (r[0] == 'adt' and r[2] == 'Some' and len(r[3]) == 1) else r
+                        good = a is ab and top is t and ('<impl %s>' % ity) in t[1]
                     # the bytes must be those of the stored text (field 0 of the argument)
                     src_ok = ab is not None and contains_term(ab, lambda v: v in (('param', 1), ('P', ('param', 1)))) is not None
                     if not (good and src_ok):
